@@ -162,6 +162,8 @@ type TreeOpts struct {
 	Val      ValueOpts
 	// OnlyTypes, when set, restricts leaf types (used by focused checks).
 	OnlyTypes []string
+	// WithGroups: grouped AVPs are generated although OnlyTypes is set (their leaves obey OnlyTypes).
+	WithGroups bool
 	// NoDeep suppresses the occasional deep chain (see Tree).
 	NoDeep bool
 }
@@ -250,7 +252,7 @@ func (c *Catalog) avp(t *rapid.T, app uint32, o TreeOpts, depth int) *AVP {
 	k := rapid.IntRange(0, 19).Draw(t, "avp-kind")
 	if k >= 11 && k < 15 {
 		// a grouped AVP, so that nesting is common
-		if es := c.reachable(app).byType[TGrouped]; len(es) > 0 && depth < o.MaxDepth && len(o.OnlyTypes) == 0 {
+		if es := c.reachable(app).byType[TGrouped]; len(es) > 0 && depth < o.MaxDepth && (len(o.OnlyTypes) == 0 || o.WithGroups) {
 			e := es[rapid.IntRange(0, len(es)-1).Draw(t, "group-entry")]
 			a.Code, a.Vendor = e.Code, e.Vendor
 			if e.Vendor != 0 {
